@@ -658,22 +658,47 @@ func runC15(c *Ctx) {
 		bad = "a verb without a matching argument does not write the missing-argument marker"
 	}
 	c.check(bad == "", "C15.R4", "missing-arg kfmt.Fprintf", fmt.Sprintf("%d read(s) of args[i], all under i < len(args); the other side writes the missing marker", nidx), bad, m.pos(fprintf.Pos()))
-	// surplus loop
+	// surplus loop: the marker is written len(args) - (arguments consumed) times:
+	// in a loop whose trip count is len(args) minus the counter that indexes args
 	extraOK := false
+	var idxVals []ssa.Value
+	for _, in := range gf.Ins {
+		if ia, ok := in.(*ssa.IndexAddr); ok && ia.X == ssa.Value(argsP) {
+			idxVals = append(idxVals, ia.Index)
+		}
+	}
 	for n := range gf.Ins {
-		if isMarker(gf, n, errExtra) {
-			extraOK = hasFact(gf.FactsAt(n), func(f Fact) bool {
-				if f.Y == nil || f.Op != token.LSS {
-					return false
+		if !isMarker(gf, n, errExtra) {
+			continue
+		}
+		zs := &Polyizer{}
+		lf, inLoop := gf.loopFormAt(zs, gf.Ins[n].Block())
+		if !inLoop {
+			continue
+		}
+		trips, tok := lf.Trips, lf.TripsOK
+		early := lf.otherExits(gf)
+		lf.Done()
+		if os.Getenv("FFC_DBG") != "" {
+			fmt.Fprintf(os.Stderr, "DBG surplus trips=%v ok=%v early=%d hdr=%d ivs=%d sym=%d blk=%d exit=%d\n", trips, tok, len(early), lf.Header.Index, len(lf.IVs), len(lf.SymSteps), gf.Ins[n].Block().Index, lf.Exit)
+		}
+		if !tok || len(early) > 0 {
+			continue
+		}
+		lenArgs := polyAtom("len(" + zs.defaultAtom(argsP) + ")")
+		for _, in := range gf.Ins {
+			phi, ok := in.(*ssa.Phi)
+			if !ok || !isIntegral(phi.Type()) {
+				continue
+			}
+			if !trips.equal(lenArgs.add(zs.Of(phi), -1)) {
+				continue
+			}
+			for _, iv := range idxVals {
+				if dependsOn(iv, phi) || dependsOn(phi, iv) {
+					extraOK = true
 				}
-				call, ok := f.Y.(*ssa.Call)
-				if !ok {
-					return false
-				}
-				bi, ok := call.Common().Value.(*ssa.Builtin)
-				_, isPhi := f.X.(*ssa.Phi)
-				return ok && bi.Name() == "len" && call.Common().Args[0] == ssa.Value(argsP) && isPhi
-			})
+			}
 		}
 	}
 	c.check(extraOK, "C15.R4", "surplus-args kfmt.Fprintf", "one surplus marker per unused argument (loop nextArgIndex < len(args))", "unused arguments are not reported with the surplus marker", m.pos(fprintf.Pos()))
